@@ -262,7 +262,7 @@ def gen_case(S, tier):
         else:
             raise core.HarnessError("no random-parameter case")
     ops = []
-    for _ in range(rng.randint(1, 2)):
+    for _ in range(rng.randint(1, 2) if tier != "thorough" else rng.randint(1, 4)):
         o = dict(op)
         o["seed"] = rng.randrange(2 ** 32)
         o["seed2"] = (o["seed"] + 1 + rng.randrange(1000)) % (2 ** 32)
